@@ -165,6 +165,19 @@ class ForOfIterator:
         return value, False
 
 
+class _ScriptThrow(Exception):
+    """A script exception travelling through native (Python) frames.
+
+    Raised by VM._throw when the innermost handler belongs to a frame below the
+    native call that is running the current callback, so that the native call
+    is abandoned before the handler runs.
+    """
+
+    def __init__(self, value: JSValue):
+        super().__init__("script exception in transit")
+        self.value = value
+
+
 class VM:
     """JavaScript virtual machine."""
 
@@ -185,7 +198,10 @@ class VM:
 
         # Exception handling
         self.exception: Optional[JSValue] = None
-        self.exception_handlers: List[Tuple[int, int]] = []  # (frame_idx, catch_ip)
+        # (frame_idx, catch_ip, operand stack depth at TRY_START)
+        self.exception_handlers: List[Tuple[int, int, int]] = []
+        # call_stack depth at entry of every native-driven callback in progress
+        self._callback_bases: List[int] = []
 
     def run(self, compiled: CompiledFunction) -> JSValue:
         """Run compiled bytecode and return result."""
@@ -276,20 +292,29 @@ class VM:
                 frame.ip += 1
 
             # Execute opcode - wrap in try/except to catch Python JS exceptions
-            try:
-                self._execute_opcode(op, arg, frame)
-            except JSTypeError as e:
-                # Convert Python JSTypeError to JavaScript TypeError
-                self._handle_python_exception("TypeError", str(e))
-            except JSReferenceError as e:
-                # Convert Python JSReferenceError to JavaScript ReferenceError
-                self._handle_python_exception("ReferenceError", str(e))
+            self._execute_guarded(op, arg, frame)
 
             # Check if frame was popped (return)
             if not self.call_stack:
                 break
 
         return self.stack.pop() if self.stack else UNDEFINED
+
+    def _execute_guarded(
+        self, op: OpCode, arg: Optional[int], frame: CallFrame
+    ) -> None:
+        """Execute one opcode, turning host-raised script errors into script throws."""
+        try:
+            self._execute_opcode(op, arg, frame)
+        except _ScriptThrow as signal:
+            # A callback run by a native threw past that native: deliver it here.
+            self._throw(signal.value, locate=False)
+        except JSTypeError as e:
+            # Convert Python JSTypeError to JavaScript TypeError
+            self._handle_python_exception("TypeError", str(e))
+        except JSReferenceError as e:
+            # Convert Python JSReferenceError to JavaScript ReferenceError
+            self._handle_python_exception("ReferenceError", str(e))
 
     def _execute_opcode(self, op: OpCode, arg: Optional[int], frame: CallFrame) -> None:
         """Execute a single opcode."""
@@ -729,7 +754,7 @@ class VM:
 
         elif op == OpCode.RETURN:
             result = self.stack.pop() if self.stack else UNDEFINED
-            popped_frame = self.call_stack.pop()
+            popped_frame = self._pop_frame()
             # For constructor calls, return the new object unless result is an object
             if popped_frame.is_constructor_call:
                 if not isinstance(result, JSObject):
@@ -737,7 +762,7 @@ class VM:
             self.stack.append(result)
 
         elif op == OpCode.RETURN_UNDEFINED:
-            popped_frame = self.call_stack.pop()
+            popped_frame = self._pop_frame()
             # For constructor calls, return the new object
             if popped_frame.is_constructor_call:
                 self.stack.append(popped_frame.new_target)
@@ -758,7 +783,9 @@ class VM:
 
         elif op == OpCode.TRY_START:
             # arg is the catch handler offset
-            self.exception_handlers.append((len(self.call_stack) - 1, arg))
+            self.exception_handlers.append(
+                (len(self.call_stack) - 1, arg, len(self.stack))
+            )
 
         elif op == OpCode.TRY_END:
             if self.exception_handlers:
@@ -881,6 +908,18 @@ class VM:
 
         else:
             raise NotImplementedError(f"Opcode not implemented: {op.name}")
+
+    def _pop_frame(self) -> CallFrame:
+        """Leave the current function: nothing of the finished activation stays
+        behind, neither handlers of try blocks it was still inside nor operands
+        (loop iterators, switch discriminants) it had pending."""
+        popped_frame = self.call_stack.pop()
+        depth = len(self.call_stack)
+        while self.exception_handlers and self.exception_handlers[-1][0] >= depth:
+            self.exception_handlers.pop()
+        if depth > 0:
+            del self.stack[popped_frame.bp :]
+        return popped_frame
 
     def _get_name(self, frame: CallFrame, index: int) -> str:
         """Get a name from the name table."""
@@ -2376,63 +2415,78 @@ class VM:
             stack_len = len(self.stack)
             call_stack_len = len(self.call_stack)
 
-            # Invoke the function
-            self._invoke_js_function(
-                callback, args, this_val if this_val is not None else UNDEFINED
-            )
+            self._callback_bases.append(call_stack_len)
+            try:
+                # Invoke the function
+                self._invoke_js_function(
+                    callback, args, this_val if this_val is not None else UNDEFINED
+                )
 
-            # Execute until the call returns (back to original call stack depth)
-            while len(self.call_stack) > call_stack_len:
-                if _VERIF_ENABLED and _VERIF_HOOK is not None:
-                    _VERIF_HOOK(self)
-                self._check_limits()
-                frame = self.call_stack[-1]
-                func = frame.func
-                bytecode = func.bytecode
+                # Execute until the call returns (back to original call stack depth)
+                while len(self.call_stack) > call_stack_len:
+                    if _VERIF_ENABLED and _VERIF_HOOK is not None:
+                        _VERIF_HOOK(self)
+                    self._check_limits()
+                    frame = self.call_stack[-1]
+                    func = frame.func
+                    bytecode = func.bytecode
 
-                if frame.ip >= len(bytecode):
-                    self.call_stack.pop()
-                    if len(self.stack) > stack_len:
-                        return self.stack.pop()
-                    return UNDEFINED
+                    if frame.ip >= len(bytecode):
+                        self._pop_frame()
+                        if len(self.stack) > stack_len:
+                            return self.stack.pop()
+                        return UNDEFINED
 
-                op = OpCode(bytecode[frame.ip])
-                frame.ip += 1
-
-                # Get argument if needed
-                arg = None
-                if op in (
-                    OpCode.JUMP,
-                    OpCode.JUMP_IF_FALSE,
-                    OpCode.JUMP_IF_TRUE,
-                    OpCode.TRY_START,
-                ):
-                    low = bytecode[frame.ip]
-                    high = bytecode[frame.ip + 1]
-                    arg = low | (high << 8)
-                    frame.ip += 2
-                elif op in (
-                    OpCode.LOAD_CONST,
-                    OpCode.LOAD_NAME,
-                    OpCode.STORE_NAME,
-                    OpCode.LOAD_LOCAL,
-                    OpCode.STORE_LOCAL,
-                    OpCode.LOAD_CLOSURE,
-                    OpCode.STORE_CLOSURE,
-                    OpCode.LOAD_CELL,
-                    OpCode.STORE_CELL,
-                    OpCode.CALL,
-                    OpCode.CALL_METHOD,
-                    OpCode.NEW,
-                    OpCode.BUILD_ARRAY,
-                    OpCode.BUILD_OBJECT,
-                    OpCode.BUILD_REGEX,
-                    OpCode.MAKE_CLOSURE,
-                ):
-                    arg = bytecode[frame.ip]
+                    op = OpCode(bytecode[frame.ip])
                     frame.ip += 1
 
-                self._execute_opcode(op, arg, frame)
+                    # Get argument if needed
+                    arg = None
+                    if op in (
+                        OpCode.JUMP,
+                        OpCode.JUMP_IF_FALSE,
+                        OpCode.JUMP_IF_TRUE,
+                        OpCode.TRY_START,
+                    ):
+                        low = bytecode[frame.ip]
+                        high = bytecode[frame.ip + 1]
+                        arg = low | (high << 8)
+                        frame.ip += 2
+                    elif op in (
+                        OpCode.LOAD_CONST,
+                        OpCode.LOAD_NAME,
+                        OpCode.STORE_NAME,
+                        OpCode.LOAD_LOCAL,
+                        OpCode.STORE_LOCAL,
+                        OpCode.LOAD_CLOSURE,
+                        OpCode.STORE_CLOSURE,
+                        OpCode.LOAD_CELL,
+                        OpCode.STORE_CELL,
+                        OpCode.CALL,
+                        OpCode.CALL_METHOD,
+                        OpCode.NEW,
+                        OpCode.BUILD_ARRAY,
+                        OpCode.BUILD_OBJECT,
+                        OpCode.BUILD_REGEX,
+                        OpCode.MAKE_CLOSURE,
+                    ):
+                        arg = bytecode[frame.ip]
+                        frame.ip += 1
+
+                    self._execute_guarded(op, arg, frame)
+            except BaseException:
+                # The callback is being abandoned (script exception headed for an
+                # outer handler, limit error, ...): leave nothing of it behind.
+                del self.call_stack[call_stack_len:]
+                del self.stack[stack_len:]
+                while (
+                    self.exception_handlers
+                    and self.exception_handlers[-1][0] >= call_stack_len
+                ):
+                    self.exception_handlers.pop()
+                raise
+            finally:
+                self._callback_bases.pop()
 
             # Get result from stack
             if len(self.stack) > stack_len:
@@ -2555,10 +2609,10 @@ class VM:
                     return source_map[ip]
         return None, None
 
-    def _throw(self, exc: JSValue) -> None:
+    def _throw(self, exc: JSValue, locate: bool = True) -> None:
         """Throw an exception."""
         # Try to add source location to error object
-        if isinstance(exc, JSObject):
+        if locate and isinstance(exc, JSObject):
             line, column = self._get_source_location()
             if line is not None:
                 exc.set("lineNumber", line)
@@ -2566,7 +2620,12 @@ class VM:
                 exc.set("columnNumber", column)
 
         if self.exception_handlers:
-            frame_idx, catch_ip = self.exception_handlers.pop()
+            frame_idx, catch_ip, stack_depth = self.exception_handlers[-1]
+            if self._callback_bases and frame_idx < self._callback_bases[-1]:
+                # The handler is outside the native call running this callback:
+                # unwind the native first (see _call_callback / _execute_guarded).
+                raise _ScriptThrow(exc)
+            self.exception_handlers.pop()
 
             # Unwind call stack
             while len(self.call_stack) > frame_idx + 1:
@@ -2576,7 +2635,9 @@ class VM:
             frame = self.call_stack[-1]
             frame.ip = catch_ip
 
-            # Push exception value
+            # Drop operands that were pending when the exception was raised,
+            # then push the exception value
+            del self.stack[stack_depth:]
             self.stack.append(exc)
         else:
             # Uncaught exception
